@@ -24,16 +24,23 @@ let dec_of_n (x : n) : string =
 
 let parse_op (t : string) : c15_op =
   let rest = String.sub t 1 (String.length t - 1) in
+  let two () = match String.split_on_char '.' rest with [a; b] -> (a, b) | [a] -> (a, "0") | _ -> failwith "op" in
   match t.[0] with
   | 'a' -> OpAlloc (n_of_dec rest)
   | 'f' -> OpFree (nat_of_int (int_of_string rest))
+  | 'z' -> let a, b = two () in OpFreeN (nat_of_int (int_of_string a), n_of_dec b)
+  | 'x' -> OpFreeInvalid true
+  | 'y' -> OpFreeInvalid false
+  | 'k' -> OpCopy (n_of_dec rest)
+  | 'b' -> let a, b = two () in OpFreeBad (nat_of_int (int_of_string a), n_of_dec b)
   | _ -> failwith "op"
 
 let obs_str = function
   | ObsBlock (c, off) -> Printf.sprintf "c%d+%s" (int_of_nat c) (dec_of_n off)
   | ObsBadAlloc -> "bad_alloc" | ObsFreed -> "F" | ObsPrecond -> "PRECOND" | ObsOutOfFuel -> "OUTOFFUEL" | ObsAbort -> "ABORT"
+  | ObsNoop -> "Z" | ObsCopyOk -> "K"
 let parse_obs (t : string) : c15_obs =
-  if t = "bad_alloc" then ObsBadAlloc else if t = "F" then ObsFreed
+  if t = "bad_alloc" then ObsBadAlloc else if t = "F" then ObsFreed else if t = "Z" then ObsNoop else if t = "K" then ObsCopyOk
   else if String.length t > 1 && t.[0] = 'c' then
     (match String.index_opt t '+' with
      | Some i -> (try ObsBlock (nat_of_int (int_of_string (String.sub t 1 (i - 1))), n_of_dec (String.sub t (i + 1) (String.length t - i - 1)))
@@ -54,7 +61,13 @@ let geom_tok g = Printf.sprintf "G%s,%s,%s,%s,%s,%s" (dec_of_n g.g_unionSize) (d
     (dec_of_n g.g_alignedSize) (dec_of_n g.g_chunkSize) (dec_of_n g.g_elements)
 
 (* ---- pool ---- *)
-let pool_oracle sT aT ops (toks : string list) : string =
+let pool_oracle ?(pr=false) sT aT ops (toks0 : string list) : string =
+  (* Pool::print: one token per chunk plus the terminating null *)
+  let nops0 = List.length ops in
+  let ptok, toks =
+    if pr && List.length toks0 = nops0 + 3 then Some (List.nth toks0 (nops0 + 1)), (take (nops0 + 1) toks0 @ [List.nth toks0 (nops0 + 2)])
+    else None, toks0 in
+  if pr && ptok = None && not (List.exists has_bang toks0) && not (List.exists is_crash toks0) then "REJECT trace incomplete (no print token)" else
   match List.find_opt has_bang toks, List.find_opt is_crash toks with
   | Some t, _ -> "REJECT harness flag " ^ t
   | None, Some t -> "REJECT trace incomplete: " ^ t
@@ -91,8 +104,9 @@ let do_pool pa sT aT s opsl =
     let rel = c15_pool_destroy st.cl_pool in
     let nb = if rel = [] then N0 else c15_chunk_bytes g in
     let toks = [geom_tok g] @ List.map obs_str obs @
+               (if pa then [] else [Printf.sprintf "P%d" (List.length rel + 1)]) @
                [Printf.sprintf "D%s:%s" (dec_of_n nb) (String.concat "." (List.map (fun c -> string_of_int (int_of_nat c)) rel))] in
-    String.concat " " toks, pool_oracle sT aT ops toks
+    String.concat " " toks, pool_oracle ~pr:(not pa) sT aT ops toks
 
 (* ---- malloc / aligned ---- *)
 let sys_oracle sT ops (toks : string list) : string =
@@ -123,23 +137,50 @@ let do_sys aligned sT aT al opsl =
   String.concat " " toks, sys_oracle sT ops toks
 
 (* ---- debug ---- *)
+let err_of_tok (t : string) : c15_dbg_obs =
+  let has sub = let n = String.length sub and m = String.length t in
+    let rec go i = i + n <= m && (String.sub t i n = sub || go (i + 1)) in go 0 in
+  if not (starts "ABORT(" t) then DObsPrecond
+  else if has "memory_block_not_found" then DObsAbort DbgNotFound
+  else if has "n_==_it->size" then DObsAbort DbgSize
+  else if has "ptr_==_it->ptr" then DObsAbort DbgPtr
+  else if has "typeid" then DObsAbort DbgType
+  else if has "not_free" then DObsAbort DbgNotFree
+  else if has "lost_allocations" then DObsAbort DbgLost
+  else DObsPrecond
+
 let dbg_parse_obs sT (op : c15_op) (t : string) : c15_dbg_obs =
   if t = "bad_alloc" then DObsBadAlloc else if t = "F" then DObsFreed
   else if String.length t > 4 && String.sub t 0 4 = "ok:o" then
-    (match op with OpAlloc n -> (try DObsOk (n_of_dec (String.sub t 4 (String.length t - 4)), N.mul n sT, true) with _ -> DObsAbort DbgNotFound)
-                 | _ -> DObsAbort DbgNotFound)
-  else DObsAbort DbgNotFound
+    (match op with OpAlloc n -> (try DObsOk (n_of_dec (String.sub t 4 (String.length t - 4)), N.mul n sT, true) with _ -> DObsPrecond)
+                 | _ -> DObsPrecond)
+  else err_of_tok t
 
-let dbg_oracle page sT aT ops (toks : string list) : string =
-  match List.find_opt has_bang toks with
+(* dman: the last token is the outcome of the manager's destructor *)
+let dbg_oracle ?(man=false) page sT aT ops (toks0 : string list) : string =
+  match List.find_opt has_bang toks0 with
   | Some t -> "REJECT harness flag " ^ t
   | None ->
+    let nops = List.length ops in
+    let toks, dtor = if man && List.length toks0 = nops + 1 then take nops toks0, Some (List.nth toks0 nops) else toks0, None in
     let nt = List.length toks in
     let opsk = take nt ops in
     let obs = List.map2 (dbg_parse_obs sT) opsk (take (List.length opsk) toks) in
-    if nt = List.length ops && c15_spec_dbg_trace page sT aT O ops obs then "ok"
-    else begin
-      let k = first_bad nt (fun k -> c15_spec_dbg_trace page sT aT O (take k ops) (take k obs)) in
+    let ended_by_abort = (match List.rev obs with DObsAbort _ :: _ -> true | _ -> false) in
+    if (nt = nops || ended_by_abort) && c15_spec_dbg_trace page sT aT O (take nt ops) obs
+       && (nt = nops || (match List.nth ops (nt - 1) with OpAlloc _ | OpFree _ -> false | _ -> true)) then begin
+      if man && not ended_by_abort then begin
+        let nlive = List.fold_left (fun a o -> match o with DObsOk _ -> a + 1 | DObsFreed -> a - 1 | _ -> a) 0 obs in
+        match dtor with
+        | Some d ->
+          let aborted = (err_of_tok d = DObsAbort DbgLost) in
+          if (d = "D0" || aborted) && c15_spec_dbg_destroy (nat_of_int nlive) (nat_of_int nlive) aborted then "ok"
+          else "REJECT manager destructor with " ^ string_of_int nlive ^ " blocks in use: " ^ d
+        | None -> "REJECT trace incomplete (no destructor token)"
+      end else "ok"
+    end else begin
+      let k = first_bad nt (fun k -> c15_spec_dbg_trace page sT aT O (take k ops) (take k obs)
+                                     || (k = nt && ended_by_abort && c15_spec_dbg_trace page sT aT O (take nt ops) obs)) in
       Printf.sprintf "REJECT debug allocator trace fails at op %d: %s" (k - 1) (if k >= 1 && k <= nt then List.nth toks (k - 1) else "(missing)")
     end
 
@@ -149,13 +190,38 @@ let dbg_obs_str sT op = function
     "ok:o" ^ dec_of_n off ^ (if cap = N.mul n sT then "" else "!short") ^ (if g then "" else "!noguard")
   | DObsBadAlloc -> "bad_alloc" | DObsFreed -> "F" | DObsPrecond -> "PRECOND"
   | DObsAbort DbgNotFound -> "ABORT(memory_block_not_found)"
-  | DObsAbort _ -> "ABORT(assertion)"
+  | DObsAbort DbgSize -> "ABORT(Assertion_n_==_it->size_failed)"
+  | DObsAbort DbgPtr -> "ABORT(Assertion_ptr_==_it->ptr_failed)"
+  | DObsAbort DbgType -> "ABORT(Assertion_typeid(T)_==_*(it->type)_failed)"
+  | DObsAbort DbgNotFree -> "ABORT(Assertion_true_==_it->not_free_failed)"
+  | DObsAbort DbgLost -> "ABORT(lost_allocations)"
 
-let do_debug page sT aT opsl =
-  let ops = List.map parse_op opsl in
-  let obs = c15_dbg_run true true page sT (c15_dbg_state0 page) ops in
+(* mode: 0 DebugAllocator, 1 AllocationManager used directly (free = deallocate<T>(p) with the default count 0), 2 DEBUG_ALLOCATOR_KEEP *)
+let do_debug mode page sT aT opsl =
+  let ops0 = List.map parse_op opsl in
+  let ops = if mode = 1 then List.map (function OpFree i -> OpFreeN (i, N0) | o -> o) ops0 else ops0 in
+  let obs = if mode = 2 then c15_dbgk_run page sT (c15_dbgk_state0 page) ops else c15_dbg_run true true page sT (c15_dbg_state0 page) ops in
   let toks = List.map2 (dbg_obs_str sT) (take (List.length obs) ops) obs in
-  String.concat " " toks, dbg_oracle page sT aT ops toks
+  let toks = if mode = 1 then
+      (match c15_dbg_final true true page sT (c15_dbg_state0 page) ops with
+       | Some st -> let _, aborted = c15_dbg_destroy st.ds_list in toks @ [if aborted then "ABORT(lost_allocations)" else "D0"]
+       | None -> toks)
+    else toks in
+  String.concat " " toks, dbg_oracle ~man:(mode = 1) page sT aT ops toks
+let dbg_ops mode opsl = let ops0 = List.map parse_op opsl in
+  if mode = 1 then List.map (function OpFree i -> OpFreeN (i, N0) | o -> o) ops0 else ops0
+
+(* ---- plain API ---- *)
+let b01 x = if x then "1" else "0"
+let api_line what sT =
+  if what = "pa" then
+    let e st so = b01 (c15_pa_equal st so) ^ b01 (not (c15_pa_equal st so)) in
+    (* same object, two objects, copy, other value type, void/void same object, void/void distinct, void/T, T/void *)
+    Printf.sprintf "max=%s eq=%s rebind=1" (dec_of_n c15_pa_max_size)
+      (e true true ^ e true false ^ e true false ^ e false false ^ e true true ^ e true false ^ e false false ^ e false false)
+  else
+    Printf.sprintf "max=%s eq=%s rebind=1" (dec_of_n (c15_max_size sT))
+      (b01 c15_stateless_equal ^ b01 (not c15_stateless_equal) ^ b01 c15_stateless_equal ^ b01 (not c15_stateless_equal))
 
 let () =
   let ic = open_in Sys.argv.(1) in
@@ -171,26 +237,37 @@ let () =
         (match List.hd t, il with
          | ("pool" | "pa"), None -> let m, o = do_pool (List.hd t = "pa") (nn 1) (nn 2) (nn 3) (drop 4 t) in m ^ " | " ^ o
          | ("pool" | "pa"), Some l ->
-           if l = "NOGEOM" then "ok" else pool_oracle (nn 1) (nn 2) (List.map parse_op (drop 4 t)) (split l)
+           if l = "NOGEOM" then "ok" else pool_oracle ~pr:(List.hd t = "pool") (nn 1) (nn 2) (List.map parse_op (drop 4 t)) (split l)
          | "malloc", None -> let m, o = do_sys false (nn 1) (nn 2) None (drop 3 t) in m ^ " | " ^ o
          | "malloc", Some l -> sys_oracle (nn 1) (List.map parse_op (drop 3 t)) (split l)
          | "aligned", None ->
            let al = if List.nth t 3 = "-1" then None else Some (nn 3) in
            let m, o = do_sys true (nn 1) (nn 2) al (drop 4 t) in m ^ " | " ^ o
          | "aligned", Some l -> sys_oracle (nn 1) (List.map parse_op (drop 4 t)) (split l)
-         | "debug", None -> let m, o = do_debug (nn 1) (nn 2) (nn 3) (drop 4 t) in m ^ " | " ^ o
-         | "debug", Some l -> dbg_oracle (nn 1) (nn 2) (nn 3) (List.map parse_op (drop 4 t)) (split l)
+         | ("debug" | "dman" | "debugkeep"), None ->
+           let mode = (match List.hd t with "dman" -> 1 | "debugkeep" -> 2 | _ -> 0) in
+           let m, o = do_debug mode (nn 1) (nn 2) (nn 3) (drop 4 t) in m ^ " | " ^ o
+         | ("debug" | "dman" | "debugkeep"), Some l ->
+           let mode = (match List.hd t with "dman" -> 1 | "debugkeep" -> 2 | _ -> 0) in
+           dbg_oracle ~man:(mode = 1) (nn 1) (nn 2) (nn 3) (dbg_ops mode (drop 4 t)) (split l)
+         | "api", None -> api_line (List.nth t 1) (nn 2) ^ " | ok"
+         | "api", Some l -> if String.trim l = api_line (List.nth t 1) (nn 2) then "ok" else "REJECT allocator interface (max_size / operator== / rebind): " ^ l
          | "isaligned", None ->
            let b x = if x then "1" else "0" in
            b (c15_isAligned (nn 1) (nn 2)) ^ " | " ^ (if c15_isAligned (nn 1) (nn 2) = c15_spec_isAligned (nn 1) (nn 2) then "ok" else "REJECT model differs from p mod align = 0")
          | "isaligned", Some l ->
            if String.trim l = (if c15_spec_isAligned (nn 1) (nn 2) then "1" else "0") then "ok" else "REJECT isAligned(" ^ List.nth t 1 ^ "," ^ List.nth t 2 ^ ") = " ^ l
          | "alignedbase", None ->
-           (* AlignedBase<align>::operator new(count, ptr): violatedAlignment iff !isAligned(ptr, align); ptr = 4096-aligned buffer + off *)
-           let m = if c15_isAligned (N.add (n_of_int 1048576) (nn 2)) (nn 1) then "placed" else "violated" in
-           m ^ " | " ^ (if (m = "placed") = c15_spec_isAligned (nn 2) (nn 1) then "ok" else "REJECT model differs from off mod align = 0")
+           (* AlignedBase<align>::operator new / new[] (count, ptr): violatedAlignment iff !isAligned(ptr, align); ptr = 4096-aligned buffer + off;
+              mode 2: default handler = abort *)
+           let mode = if List.length t > 3 then int_of_string (List.nth t 3) else 0 in
+           let al = c15_isAligned (N.add (n_of_int 1048576) (nn 2)) (nn 1) in
+           let m = if al then "placed" else if mode = 2 then "ABORT(invalid_alignment)" else "violated" in
+           m ^ " | " ^ (if al = c15_spec_isAligned (nn 2) (nn 1) then "ok" else "REJECT model differs from off mod align = 0")
          | "alignedbase", Some l ->
-           if String.trim l = (if c15_spec_isAligned (nn 2) (nn 1) then "placed" else "violated") then "ok"
+           let mode = if List.length t > 3 then int_of_string (List.nth t 3) else 0 in
+           let exp = if c15_spec_isAligned (nn 2) (nn 1) then "placed" else if mode = 2 then "ABORT(invalid_alignment)" else "violated" in
+           if String.trim l = exp then "ok"
            else "REJECT AlignedBase placement new at offset " ^ List.nth t 2 ^ " for alignment " ^ List.nth t 1 ^ ": " ^ l
          | _, _ -> "UNKNOWN-KIND")
       with e -> "DRIVER-ERROR " ^ Printexc.to_string e in
